@@ -4,7 +4,7 @@ import sys, json, re, os, glob
 rows = {}
 for f in sys.argv[1:]:
     for l in open(f):
-        m = re.match(r"(C\d\d/[a-d]) violations=(\d+) first=\[(.*?)\]\s*(.*)$", l.strip())
+        m = re.match(r"(C\d\d/[a-f]) violations=(\d+) first=\[(.*?)\]\s*(.*)$", l.strip())
         if m:
             rows[m.group(1)] = (int(m.group(2)), m.group(3), m.group(4))
         elif "patch-failed" in l:
